@@ -56,7 +56,8 @@ Definition gfl_inv (a cr r : nat) (z : bool) : Prop :=
   (z = false -> 1 <= cr /\ is_eol (nth (cr - 1) u 0%N) = false).
 
 Definition gfl_post (a fl : nat) : Prop :=
-  fl = 0 \/ (2 <= fl <= n /\ hpos a u = (fl - 2) + hpos 1 (skipn (fl - 2) u)).
+  fl = 0 \/ (2 <= fl <= n /\ hpos a u = (fl - 2) + hpos 1 (skipn (fl - 2) u) /\
+             (nth (fl - 1) u 0%N = CR -> fl < n -> nth fl u 0%N <> LF)).
 
 Lemma gfl_hpos a : forall fuel cr r z fl, gfl_inv a cr r z -> gfl fuel m msg n cr r = Ok fl -> gfl_post a fl.
 Proof.
@@ -65,12 +66,13 @@ Proof.
   (* the two ways to leave the loop share this *)
   assert (Fin : forall cr2 r2, cr2 + r2 = n -> 2 <= cr2 ->
             hpos a u = (cr2 - 2) + hpos 1 (skipn (cr2 - 2) u) ->
+            (nth (cr2 - 1) u 0%N = CR -> cr2 < n -> nth cr2 u 0%N <> LF) ->
             (if Nat.eqb cr2 0 then Crash 25%N else do z0 <- rd m (msg + cr2 - 1); Ok (if is_eol z0 then n - r2 else 0)) = Ok fl ->
             gfl_post a fl).
-  { intros cr2 r2 Hc2 H2 Hh2 E2. destruct (Nat.eqb_spec cr2 0); [lia|].
+  { intros cr2 r2 Hc2 H2 Hh2 Hns E2. destruct (Nat.eqb_spec cr2 0); [lia|].
     rewrite rd_at in E2 by lia. cbn [bind] in E2. inversion E2 as [E3].
     destruct (is_eol (at_ m (msg + cr2 - 1))); [right|left; reflexivity].
-    replace (n - r2) with cr2 by lia. split; [lia|exact Hh2]. }
+    replace (n - r2) with cr2 by lia. split; [lia|]. split; [exact Hh2|exact Hns]. }
   destruct (Nat.eqb_spec r 0) as [Hr0|Hrn].
   - (* data used up *)
     subst r. cbn [bind negb Nat.eqb] in E. destruct z; [destruct (Hz1 eq_refl); lia|].
@@ -144,6 +146,10 @@ Proof.
         rewrite (u_skip (cr - 1)) by lia. rewrite hpos_noneol by exact Hne.
         replace (S (cr - 1)) with cr by lia. rewrite Hh. cbn [Nat.eqb]. lia.
       - replace (cr2 - 2) with cr by (unfold cr2; lia). rewrite Hh. reflexivity. }
+    assert (Hns : nth (cr2 - 1) u 0%N = CR -> cr2 < n -> nth cr2 u 0%N <> LF).
+    { unfold cr2. destruct Hk as [Hk'|Hk']; subst k.
+      - replace (cr + 1 - 1) with cr by lia. replace (cr + 1) with (S cr) by lia. intros A B. apply Hk1; auto.
+      - replace (cr + 2 - 1) with (S cr) by lia. destruct (Hk2 eq_refl) as (_ & B). rewrite B. discriminate. }
     destruct (Nat.eqb_spec r2 0) as [Hr2|Hr2].
     + cbn [bind] in E2. apply (Fin cr2 r2); auto; unfold cr2, r2 in *; lia.
     + rewrite rd_at in E2 by (unfold cr2, r2 in *; lia). cbn [bind] in E2.
@@ -202,7 +208,9 @@ Proof. intros H. apply skipn_nth_cons. rewrite w_len. exact H. Qed.
 (** offset [i] of the window is the start of a line *)
 Definition ls_at (i : nat) : Prop := i = 0 \/ is_eol (nth (i - 1) w 0%N) = true.
 
-Definition fld_inv2 (f : nat * nat) : Prop := fld_inv m b len f /\ (snd f <> 0 -> ls_at (fst f)).
+(** a line end that ends at offset [e] is complete: no CR | LF pair is cut there *)
+Definition nosplit (e : nat) : Prop := nth (e - 1) w 0%N = CR -> e < len -> nth e w 0%N <> LF.
+Definition fld_inv2 (f : nat * nat) : Prop := fld_inv m b len f /\ (snd f <> 0 -> ls_at (fst f) /\ nosplit (fst f + snd f)).
 
 (** ghost state of the scan: [z] = at the start of a line *)
 Definition scan_inv (off : nat) (z : bool) : Prop :=
@@ -308,7 +316,7 @@ Proof.
             exists isf, (if Nat.ltb (length lit) (len - off) then casecmp_at m (b + S off) lit else Ok false) = Ok isf /\
               (isf = true -> z = true /\ exists fl, getfieldlen m (b + off) (len - off) = Ok fl /\
                  (fl = 0 \/ (CT_LEN < fl /\ 2 <= fl /\ off + fl <= len /\ field_ok m (b + off) fl /\
-                             scan_inv (off + fl - 2) false)))).
+                             scan_inv (off + fl - 2) false /\ nosplit (off + fl))))).
   { intros lit Hlit Hlen. destruct (Nat.ltb_spec (length lit) (len - off)) as [Hr|Hr].
     - destruct (casecmp_in m lit (b + S off)) as (isf & Eisf & Hm); [lia|].
       exists isf. split; [exact Eisf|]. intros Ht. specialize (Hm Ht).
@@ -337,8 +345,11 @@ Proof.
       { apply (gfl_hpos m (b + off) (len - off) ltac:(lia) (if z then 0 else 1) (2 * (len - off) + 2) 0 (len - off) true fl); [|exact Efl].
         split; [lia|]. split; [cbn [skipn]; rewrite Hsub, Hzt; cbn; reflexivity|]. split; [|discriminate].
         intros _. split; [lia|]. rewrite Hsub. rewrite nth_skipn'. rewrite Nat.add_0_r. exact Hce0. }
-      destruct Hpost as [|(Hfl2 & Hhp)]; [contradiction|]. rewrite Hsub in Hhp.
-      split; [lia|]. split.
+      destruct Hpost as [|(Hfl2 & Hhp & Hnsp)]; [contradiction|]. rewrite Hsub in Hhp, Hnsp.
+      assert (Hnosplit : nosplit (off + fl)).
+      { unfold nosplit. intros A B. rewrite !nth_skipn' in Hnsp. replace (off + (fl - 1)) with (off + fl - 1) in Hnsp by lia.
+        apply Hnsp; [exact A|lia]. }
+      split; [|exact Hnosplit]. split; [lia|]. split.
       + rewrite skipn_skipn' in Hhp. replace (off + (fl - 2)) with (off + fl - 2) in Hhp by lia. cbn [Nat.eqb]. lia.
       + split; [discriminate|]. intros _ Hlt2.
         (* the octet before the last of the field *)
@@ -351,19 +362,19 @@ Proof.
   - destruct (Hisct eq_refl) as (Hzt & fl & Efl & Hfl). rewrite Efl. cbn [bind].
     destruct (Nat.eqb_spec fl 0) as [Hz|Hnz]; cbn [negb].
     + apply Dflt; [split; [left; reflexivity|intros F; contradiction]|assumption].
-    + destruct Hfl as [|(H13 & H2 & Hin & Hfo & Hinv2)]; [contradiction|].
+    + destruct Hfl as [|(H13 & H2 & Hin & Hfo & Hinv2 & Hnsp)]; [contradiction|].
       destruct (Nat.ltb_spec fl 2) as [|_]; [lia|].
       apply (Rec (off + fl - 2) false); [unfold CT_LEN in H13; lia|exact Hinv2| |assumption].
-      split; [right; cbn [fst snd]; auto|]. intros _. cbn [fst]. apply Hls. exact Hzt.
+      split; [right; cbn [fst snd]; auto|]. intros _. cbn [fst snd]. split; [apply Hls; exact Hzt|exact Hnsp].
   - destruct (Field CTE_TAIL eq_refl ltac:(unfold CT_LEN; cbn; lia)) as (iscte & Eiscte & Hiscte). rewrite Eiscte. cbn [bind].
     destruct iscte; [|apply Dflt; assumption].
     destruct (Hiscte eq_refl) as (Hzt & fl & Efl & Hfl). rewrite Efl. cbn [bind].
     destruct (Nat.eqb_spec fl 0) as [Hz|Hnz]; cbn [negb].
     + apply Dflt; [assumption|split; [left; reflexivity|intros F; contradiction]].
-    + destruct Hfl as [|(H13 & H2 & Hin & Hfo & Hinv2)]; [contradiction|].
+    + destruct Hfl as [|(H13 & H2 & Hin & Hfo & Hinv2 & Hnsp)]; [contradiction|].
       destruct (Nat.ltb_spec fl 2) as [|_]; [lia|].
       apply (Rec (off + fl - 2) false); [unfold CT_LEN in H13; lia|exact Hinv2|assumption|].
-      split; [right; cbn [fst snd]; auto|]. intros _. cbn [fst]. apply Hls. exact Hzt.
+      split; [right; cbn [fst snd]; auto|]. intros _. cbn [fst snd]. split; [apply Hls; exact Hzt|exact Hnsp].
 Qed.
 
 End Scan.
